@@ -13,7 +13,7 @@
   any supplier table) and EVERY schedule `sched : List Nat` — any poll order, including spurious
   polls of tasks that cannot progress and polls of ids that are no task.
 -/
-import MdProofs.Lemmas.OnceInv
+import MdProofs.Lemmas.OnceProgress
 namespace MdModel.Once
 open MdModel
 
@@ -200,5 +200,47 @@ example :
     let s := exec cfg [0, 1, 2, 0, 1, 2, 0, 1, 2, 0, 1, 2] (init cfg)
     allFin cfg s = true ∧ s.requested = 2 ∧ s.processed = 2 ∧ (allKeys cfg).length = 2 := by
   decide
+
+/-! ## 5. "No request is lost or deadlocks" -/
+
+/-- **C12.4** `progress` (no deadlock): in every reachable state in which some task is unfinished,
+    there is a task whose poll strictly decreases the measure
+    `Σ_tasks (remaining lookups weighted by the supplier's suspensions)`. -/
+theorem progress (cfg : Cfg) (sched : List Nat)
+    (hnf : allFin cfg (exec cfg sched (init cfg)) = false) :
+    ∃ t, t < cfg.ntasks ∧
+      measure cfg (poll cfg t (exec cfg sched (init cfg))) < measure cfg (exec cfg sched (init cfg)) := by
+  obtain ⟨t, ht, hf, hnb⟩ := exists_unblocked (invA_reach cfg sched) hnf
+  exact ⟨t, ht, measure_poll_lt cfg t _ ht hf hnb⟩
+
+/-- **C12.4b** no poll — spurious or not — ever increases the measure (so spurious polls can delay
+    completion but never undo progress). -/
+theorem poll_never_regresses (cfg : Cfg) (t : Nat) (s : State) :
+    measure cfg (poll cfg t s) ≤ measure cfg s := measure_poll_le cfg t s
+
+/-- **C12.4c** every fair schedule finishes: after ANY schedule `sched`, any continuation made of
+    at least `measure` rounds, each of which polls every task at least once (in any order, with
+    any repetitions and spurious polls in between), ends with every task finished. -/
+theorem fair_schedule_finishes (cfg : Cfg) (sched : List Nat) (rounds : List (List Nat))
+    (hfair : ∀ r ∈ rounds, ∀ t, t < cfg.ntasks → t ∈ r)
+    (hlen : measure cfg (exec cfg sched (init cfg)) ≤ rounds.length) :
+    allFin cfg (exec cfg (sched ++ rounds.flatten) (init cfg)) = true := by
+  rw [exec_append]
+  exact rounds_finish rounds hfair (invA_reach cfg sched) hlen
+
+/-- the number of rounds needed is bounded by the initial measure, a function of the
+    configuration only: `Σ_tasks (1 + Σ_lookups (suspensions + 3))`. -/
+theorem measure_bounded (cfg : Cfg) (sched : List Nat) :
+    measure cfg (exec cfg sched (init cfg)) ≤ measure cfg (init cfg) :=
+  measure_exec_le cfg sched _
+
+/-- non-vacuity of `progress` and `fair_schedule_finishes`: a contended unfinished state, and
+    fair rounds (with spurious polls) finishing it. -/
+example :
+    let cfg : Cfg := ⟨[[0, 1], [1, 0]], fun _ => ⟨1, .ok⟩⟩
+    allFin cfg (exec cfg [0, 1, 1, 0] (init cfg)) = false ∧
+    measure cfg (exec cfg [0, 1, 1, 0] (init cfg)) ≤ 6 ∧
+    allFin cfg (exec cfg ([0, 1, 1, 0] ++ [[1, 1, 0], [0, 1], [1, 0, 0], [0, 1], [0, 1], [1, 0]].flatten)
+      (init cfg)) = true := by decide
 
 end MdModel.Once
